@@ -160,6 +160,30 @@ def fmtOfSuffix (suffix : List Char) : Option Fmt :=
   else if s = ['.', 'e', 'm', 'f'] then some .emf
   else none
 
+/-! ### the suffix of a file NAME
+
+`_determine_image_format` looks at `path.suffix`, which `pathlib` derives from the FINAL component of the path
+(`PurePath.name`, the text behind the last `/`) as the text from its LAST dot on — provided that dot is neither the
+first nor the last character of the name (`i = name.rfind('.')`, `name[i:] if 0 < i < len(name) - 1 else ''`).  So of a
+name with several dots only the last dot-token counts: `plot.emf.png` is a PNG, `scan.png.jpg` a JPEG, `.png` (a hidden
+file), `plot.png.` and `plot` have no suffix, and nothing a directory is called matters. -/
+
+/-- `PurePath.name` of a POSIX path without a trailing slash: the text behind the last `/` -/
+def baseName (path : List Char) : List Char :=
+  (path.reverse.takeWhile (fun c => c != '/')).reverse
+
+/-- `PurePath.suffix` of a name (Python 3.12 `pathlib`) -/
+def suffixOfName (name : List Char) : List Char :=
+  let r := name.reverse
+  let ext := r.takeWhile (fun c => c != '.')
+  match r.dropWhile (fun c => c != '.') with
+  | _ :: _ :: _ => if ext.isEmpty then [] else '.' :: ext.reverse
+  | _ => []
+
+/-- `_determine_image_format(Path(path))`, extension table only: the format of the LAST suffix of the final
+component, case-insensitively -/
+def fmtOfPath (path : List Char) : Option Fmt := fmtOfSuffix (suffixOfName (baseName path))
+
 /-- control word (without backslash) written after `{\pict` -/
 def blipWord : Fmt → List Char
   | .png => ['p', 'n', 'g', 'b', 'l', 'i', 'p']
